@@ -97,6 +97,16 @@ func scenarios(c *vlib.Ctx) []*slib.Scn {
 	for _, f := range []string{"1:start:err", "0:start:panic", "1:stop:err", "0:stop:panic"} {
 		add(modules.C01Params{N: 2, Deps: [][2]int{{1, 0}}, Mgmt: true, Rounds: []int{2, 0, 2}, Fault: f}, 1)
 	}
+	// a module that is enabled later fails to prep/start during the management pass (Start itself succeeded without it)
+	for _, g := range [][][2]int{nil, {{1, 0}}} {
+		for _, f := range []string{"1:start:err", "1:start:panic", "1:prep:err", "1:prep:panic"} {
+			add(modules.C01Params{N: 2, Deps: g, Mgmt: true, Rounds: []int{1, 3}, Fault: f}, 1)
+			add(modules.C01Params{N: 2, Deps: g, Mgmt: true, Rounds: []int{1, 3, 1}, Fault: f}, 1)
+		}
+	}
+	for _, f := range []string{"2:start:err", "1:start:err", "2:start:panic"} {
+		add(modules.C01Params{N: 3, Deps: [][2]int{{2, 1}, {1, 0}}, Mgmt: true, Rounds: []int{1, 4}, Fault: f}, 1)
+	}
 	return out
 }
 
